@@ -87,6 +87,41 @@ pub fn mint(
     }
 }
 
+/// A token produced by the library's own generator (`ConnectToken::generate`: OS randomness for the
+/// keys and the nonce, so ciphertext bytes differ from run to run; decisions never depend on them).
+#[allow(clippy::too_many_arguments)]
+pub fn mint_lib(
+    now_s: u64,
+    protocol_id: u64,
+    expire_seconds: u64,
+    client_id: u64,
+    timeout_seconds: i32,
+    addrs: &[SocketAddr],
+    user_data: Option<[u8; 256]>,
+    private_key: &[u8; 32],
+) -> Option<Minted> {
+    let token = ConnectToken::generate(
+        Duration::from_secs(now_s),
+        protocol_id,
+        expire_seconds,
+        client_id,
+        timeout_seconds,
+        addrs.to_vec(),
+        user_data.as_ref(),
+        private_key,
+    )
+    .ok()?;
+    let private = renetcode::verif::private_token_decode(&token.private_data, protocol_id, token.expire_timestamp, &token.xnonce, private_key).ok()?;
+    let expire = token.expire_timestamp;
+    Some(Minted {
+        token,
+        private,
+        sealed_under: *private_key,
+        create: now_s,
+        expire,
+    })
+}
+
 pub fn token_bytes(t: &ConnectToken) -> Vec<u8> {
     let mut v = Vec::with_capacity(2048);
     t.write(&mut v).expect("token write");
